@@ -160,6 +160,7 @@ func runC16(t *rapid.T) {
 		GenesisState:         map[string][]byte{},
 		BlockEvents:          simkit.Bool(t, "blockevents"),
 		StrictNonce:          true,
+		QuietBlocks:          simkit.Bool(t, "quietblocks"),
 	}
 	// a small key universe so that commands overwrite and delete each other's keys
 	type skey struct {
@@ -268,7 +269,9 @@ func runC16(t *rapid.T) {
 			bres, err := a.handler.BeforeTransactionsExecute(&labi.BeforeTransactionsExecuteRequest{ContextID: ctxID, Assets: blockchain.BlockAssets{}, Consensus: consensus})
 			must(err, "BeforeTransactionsExecute")
 			hb := []byte{byte(height >> 24), byte(height >> 16), byte(height >> 8), byte(height)}
-			staged[string(simmod.BlockFullKey())] = hb
+			if !cfg.QuietBlocks {
+				staged[string(simmod.BlockFullKey())] = hb
+			}
 			wantBlkEvents := 0
 			if cfg.BlockEvents {
 				wantBlkEvents = 1
